@@ -264,10 +264,11 @@ class _CloseInterp(AbsInt):
     """Worlds (bar_time in {Z,P}, note_in_bar, boolean locals) over tokenise: does the end-of-call closing fire for a bar
     that received a note although nothing advanced the bar time (all its notes start at bar time 0)?"""
 
-    def __init__(self, fn, bar_time: str, result: str, closure, remaining: str | None = None):
+    def __init__(self, fn, bar_time: str, result: str, closure, remaining: str | None = None, total: str | None = None):
         super().__init__()
         self.fn = fn
         self.rem = remaining
+        self.total = total
         self.bt = bar_time
         self.res = result
         self.closure = closure
@@ -347,6 +348,24 @@ class _CloseInterp(AbsInt):
         if isinstance(test, ast.UnaryOp) and isinstance(test.op, ast.Not):
             v = self.truth(test.operand, w)
             return None if v is None else not v
+        if isinstance(test, ast.Compare) and len(test.ops) > 1:
+            # a chained comparison is the conjunction of its links
+            operands = [test.left] + list(test.comparators)
+            vals = [self.truth(ast.Compare(left=operands[i], ops=[test.ops[i]], comparators=[operands[i + 1]]), w) for i in range(len(test.ops))]
+            return False if any(v is False for v in vals) else (True if all(v is True for v in vals) else None)
+        if isinstance(test, ast.Compare) and len(test.ops) == 1 and self.total is not None and self.rem is not None \
+                and {getattr(test.left, "id", None), getattr(test.comparators[0], "id", None)} == {self.rem, self.total}:
+            # remaining vs total capacity: the remaining capacity is counted down exactly when the bar time is counted up, so
+            # remaining == total  <=>  bar time == 0 (and remaining <= total always)
+            z = w[0] == "Z"
+            op = type(test.ops[0])
+            if test.left.id == self.total:
+                op = {ast.Lt: ast.Gt, ast.Gt: ast.Lt, ast.LtE: ast.GtE, ast.GtE: ast.LtE}.get(op, op)
+            return {ast.Lt: not z, ast.Eq: z, ast.NotEq: not z, ast.LtE: True, ast.GtE: z, ast.Gt: False}.get(op)
+        if isinstance(test, ast.Compare) and len(test.ops) == 1 and isinstance(test.left, ast.Constant) and test.left.value == 0 \
+                and isinstance(test.comparators[0], ast.Name) and test.comparators[0].id in (self.bt, self.rem):
+            flipped = {ast.Lt: ast.Gt, ast.Gt: ast.Lt, ast.LtE: ast.GtE, ast.GtE: ast.LtE}.get(type(test.ops[0]), type(test.ops[0]))
+            return self.truth(ast.Compare(left=test.comparators[0], ops=[flipped()], comparators=[test.left]), w)
         if isinstance(test, ast.Compare) and len(test.ops) == 1 and isinstance(test.left, ast.Name) and test.left.id == self.bt \
                 and isinstance(test.comparators[0], ast.Constant) and test.comparators[0].value == 0:
             z = w[0] == "Z"
@@ -398,7 +417,8 @@ def close_rule(ctx: Ctx, rule: str = "CLOSE") -> None:
     if roles is None:
         ctx.undetermined(rule, "tokenise: end-of-call bar closing", "clock variables not identified: not judged")
         return
-    it = _CloseInterp(fe.node, roles["cur_time_bar"], T.result_list_name(fe.node), closure, remaining=roles["cur_bar_capacity_remaining"])
+    it = _CloseInterp(fe.node, roles["cur_time_bar"], T.result_list_name(fe.node), closure, remaining=roles["cur_bar_capacity_remaining"],
+                      total=roles.get("cur_bar_capacity_total"))
     bools = {"$rem0": False}
     for s in fe.node.body:
         if isinstance(s, ast.Assign) and isinstance(s.targets[0], ast.Name) and isinstance(s.value, ast.Constant) and isinstance(s.value.value, bool):
@@ -418,6 +438,10 @@ def close_rule(ctx: Ctx, rule: str = "CLOSE") -> None:
     states = it.closing_states.get(id(it.closing_node), set())
     bad = sorted({(w[0], w[1]) for w, v in states if w[1] and v is False})
     some_true = any(v in (True, None) for w, v in states)
+    unsure = sorted({(w[0], w[1]) for w, v in states if w[1] and v is None})
+    if unsure and not bad:
+        ctx.undetermined(rule, "tokenise: a bar that received a note is closed at the end of the call",
+                         f"closing guard `{short(it.closing_node.test, 80)}` contains a condition the state model does not decide in {unsure}: not judged")
     ctx.check(not bad and some_true, rule, f"tokenise: a bar that received a note is closed at the end of the call ({len(states)} abstract states at the closing test)",
               function=fe.qualname, construct="end-of-call bar closing does not fire for a bar whose notes all start at bar time 0",
               message=f"closing guard `{short(it.closing_node.test, 90)}` is false in the state (bar time = 0, a note was emitted in the bar): the clock is "
